@@ -8,7 +8,45 @@ def jobs(tier):
              stubs=C15.POOL_STUBS + ('opensmt::FastRational::getMpq',), expected_wrap=C15.WRAP, min_obligations=5,
              proves='the constant of an integer difference constraint is converted exactly, or reported as not fitting')]
     J += [j for j in C27.jobs_stp() if re.search(r'SafeInt_(plus|minuseq|minus|neg)|IDL_', j.name)]
-    return J
+    return J + jobs_lia()
+LIA_STUBS = ('opensmt::LASolver::isModelInteger', 'opensmt::LASolver::shouldTryCutFromProof', 'opensmt::LASolver::cutFromProof', 'opensmt::LASolver::splitOnRandom', 'opensmt::LASolver::getVarPTRef',
+             'opensmt::LASolver::setStatus', 'opensmt::Simplex::hasLBound', 'opensmt::Simplex::hasUBound', 'opensmt::Simplex::Ub', 'opensmt::Simplex::Lb', 'opensmt::Simplex::getValuation',
+             'opensmt::ArithLogic::mkLeq', 'opensmt::ArithLogic::mkGeq', 'opensmt::ArithLogic::mkIntConst', 'opensmt::Logic::mkOr', 'vec_LVRef__capacity__int', 'vec_PTRef__push__PTRef_R')
+H_LIA = '''void harness(void) {
+  struct LVRef vars[NV]; for (int k = 0; k < NV; k++) { vars[k].x = (t_u32)k; h_integral[k] = nondet_bool(); g_asked[k] = 0; }
+  t_int n; __CPROVER_assume(n >= 0 && n <= NV);
+  g_opaque_LASolver_int_vars.data = vars; g_opaque_LASolver_int_vars.sz = n; g_opaque_LASolver_int_vars.cap = NV;
+  /* the (non-integral) Simplex value of whichever variable is chosen for branching: any canonical word rational with den > 1 */
+  s_make(&h_delta.r); __CPROVER_assume(FR_WORD(&h_delta.r) && h_delta.r.den > 1);
+  h_delta.d.state = 1; h_delta.d.num = 0; h_delta.d.den = 1; h_delta.d.mpq = (mpq_ptr)0;
+  wide vn = VN(&h_delta.r), vd = VD(&h_delta.r);
+  h_cut = nondet_bool() ? E_TRes_UNKNOWN : E_TRes_UNSAT;
+  g_status = -1; g_split = 0; g_pushed = 0; g_nc = 0;
+  t_int r = LASolver__checkIntegersAndSplit((struct LASolver *)0);
+  __CPROVER_assume(!g_gmp_arith);
+  t_bool allint = 1; for (int k = 0; k < NV; k++) if (k < n && !h_integral[k]) allint = 0;
+  for (int k = 0; k < NV; k++) if (k < n) __CPROVER_assert(g_asked[k] >= 1, "every integer variable is examined");
+  __CPROVER_assert(allint == (g_status == E_LASolver___anon_SAT), "the complete LIA check ends in status SAT exactly when every integer variable has an integral value");
+  if (allint) __CPROVER_assert(r == E_TRes_SAT && !g_split && g_pushed == 0, "an integral model is reported as SAT without branching");
+  else __CPROVER_assert((r == h_cut && r != E_TRes_UNKNOWN && g_pushed == 0) || (r == E_TRes_SAT && g_status == E_LASolver___anon_NEWSPLIT && g_split && g_pushed == 1),
+                        "a non-integral model leads to a cut verdict or to exactly one recorded branch, never to a plain SAT");
+  if (g_pushed == 1) {
+    __CPROVER_assert(g_nc == 2 && g_leq_c == 10 && g_geq_c == 11, "the branches are x <= c1 and x >= c2 with the two constants in this order");
+    __CPROVER_assert(g_c[0] * vd <= vn && vn < (g_c[0] + 1) * vd, "c1 is the floor of the variable's value");
+    __CPROVER_assert(g_c[1] == g_c[0] + 1, "c2 == c1 + 1: no integer is lost between the branches");
+  }
+  OSMT_REACH("return");
+}
+'''
+def jobs_lia():
+    W = 4
+    return [Job('checkIntegersAndSplit.N3', 'src/tsolvers/lasolver/LASolver.cc', 'opensmt::LASolver::checkIntegersAndSplit', tier='S', width=W, header='contracts/C02/lia.h', harness=H_LIA,
+                enforce=False, aux_tu=C15.TU, stubs=C15.POOL_STUBS + LIA_STUBS, opaque=('opensmt::LASolver', 'opensmt::TSolver', 'opensmt::Simplex', 'opensmt::ArithLogic', 'opensmt::Logic'),
+                defines=('OSMT_GMP_EXACT', 'OSMT_CHECK_WF_ASSERTS'), unwindset=C15.S_UNWIND(W) + ('sp_coprime.0:56',), default_unwind=8, min_obligations=5, timeout=1200, object_bits=12,
+                expected_wrap=(('absVal__word', 'type conversion'), ('absVal__lword', 'type conversion'), ('absVal__word', 'unary minus'), ('absVal__lword', 'unary minus')),
+                bounded_note='at most 3 integer variables (every subset integral / non-integral); FastRational code of the split at word width 4',
+                proves='SAT from the complete LIA check implies an integral value for every integer variable')]
+
 def info(tier, results):
     return {'level': 'proof', 'trusted_base': ['clang 14 AST', 'osmt2c lowering', 'CBMC 6.11 dfcc'],
             'assumptions': ['FastRational::getMpq / mpq_class::get_num / mpz_class::fits_slong_p / get_si behave as the stubs of contracts/C02/getvalue.h (exact GMP semantics over ghost value identities)'], 'explanation': ''}
